@@ -14,6 +14,7 @@ CONSTANTS
   Weak_AbsenceRawKey = FALSE
   Weak_NoParamsHashCompare = TRUE
   Weak_ValsNotHashed = FALSE
+  Weak_BackwardsTargetNotRechecked = FALSE
   Weak_SearchProofFromCachedBlock = FALSE
 INIT CaseInit
 NEXT CaseNext
